@@ -11,7 +11,7 @@ use graaf::*;
 use serde_json::{json, Value};
 use std::collections::BTreeSet;
 
-pub const NMAX: usize = 6;
+pub const NMAX: usize = 12;
 pub const INF: i128 = i128::MAX;
 
 /// A small weighted digraph as a matrix — the reference model for the
@@ -231,7 +231,7 @@ fn stale_pop(g: &WG, src: u32) -> (bool, bool) {
 
 // ------------------------------------------------------------------ C03
 
-fn dijkstra_case(g: &WG, d: &WU, srcs: &[usize], ctx: &mut Ctx) {
+pub fn dijkstra_case(g: &WG, d: &WU, srcs: &[usize], ctx: &mut Ctx) {
     let mut sm = 0u32;
     for &s in srcs {
         sm |= 1 << s;
@@ -368,11 +368,12 @@ pub fn c03(tier: &str, seed: u64) -> Check {
     } else {
         spaces.push(c03_space(4, &A013, 6, 1));
     }
+    spaces.push(crate::props::fam::c03_family(thorough));
     let report = super::report(
         "C03",
         tier,
         seed,
-        "bounded-exhaustive: every AdjacencyListWeighted<usize> digraph of order ≤ 3 with weights {0,1,2,5}, order 4 with weights {1,3} (all 3^12), order 4 with {0,1,3} (≤ 6 arcs quick / all 4^12 thorough), order 5 with ≤ 7 arcs (thorough) × every subset of sources in both orders; Dijkstra and DijkstraDist item streams (each reachable vertex once, none unreachable, non-decreasing true distance, exact item distance) and distances() against distances from |V|-1 rounds of set relaxation in i128. Ties are accepted in any order. Non-trivial: a lazy-deletion heap simulated on the reference pops a superseded entry before the last reachable vertex is settled.",
+        "bounded-exhaustive: every AdjacencyListWeighted<usize> digraph of order ≤ 3 with weights {0,1,2,5}, order 4 with weights {1,3} (all 3^12), order 4 with {0,1,3} (≤ 6 arcs quick / all 4^12 thorough), order 5 with ≤ 7 arcs (thorough) × every subset of sources in both orders; Dijkstra and DijkstraDist item streams (each reachable vertex once, none unreachable, non-decreasing true distance, exact item distance) and distances() against distances from |V|-1 rounds of set relaxation in i128. Ties are accepted in any order. Beyond exhaustive reach: a fixed catalogue of 17 structured shapes × 4 weight patterns at orders 6..11 (up to 110 arcs), every single source and six source sets. Non-trivial: a lazy-deletion heap simulated on the reference pops a superseded entry before the last reachable vertex is settled.",
         &["weights from small alphabets: path sums never approach usize::MAX", "sources distinct and in range"],
         json!({"alphabets": {"n<=3": [0,1,2,5], "n=4": [[1,3],[0,1,3]]}}),
     );
@@ -440,7 +441,7 @@ fn tree_check(g: &WG, pred: &[Option<usize>], sm: u32, dist: &[i128; NMAX]) -> R
     Ok(())
 }
 
-fn c05_dijkstra_case(g: &WG, d: &WU, srcs: &[usize], ctx: &mut Ctx) -> bool {
+pub fn c05_dijkstra_case(g: &WG, d: &WU, srcs: &[usize], ctx: &mut Ctx) -> bool {
     let mut sm = 0u32;
     for &s in srcs {
         sm |= 1 << s;
@@ -558,7 +559,7 @@ fn cycle_ok(g: &WG, c: &[usize]) -> bool {
     c.len() >= 2 && distinct.len() == c.len() && c.iter().all(|&v| v < g.n) && (0..c.len()).all(|i| g.has[c[i]][c[(i + 1) % c.len()]])
 }
 
-fn c05_bfs_case<R: Rep>(g: &WG, d: &R, srcs: &[usize], ctx: &mut Ctx) -> bool {
+pub fn c05_bfs_case<R: Rep>(g: &WG, d: &R, srcs: &[usize], ctx: &mut Ctx) -> bool {
     let mut sm = 0u32;
     for &s in srcs {
         sm |= 1 << s;
@@ -711,11 +712,12 @@ pub fn c05(tier: &str, seed: u64) -> Check {
     if thorough {
         spaces.push(c05_dij_space(4, &A013, 1));
     }
+    spaces.push(crate::props::fam::c05_family(thorough));
     let report = super::report(
         "C05",
         tier,
         seed,
-        "bounded-exhaustive: BFS part — every digraph on 0..n, n ≤ 4 (order 5 with ≤ 1-2 sources) × 5 representations × every source subset in both orders × every target predicate (all 2^n vertex subsets); Dijkstra part — every weighted digraph of order ≤ 3 over {0,1,2,5} with all source subsets, order 4 over {1,3} (single sources quick, all subsets thorough) × every target predicate. Oracle: tree entries are shortest-path-tree arcs w.r.t. reference distances; shortest_path is None iff no target reachable, else starts at a source, ends at a target, follows arcs and has the minimum weight over all targets (any optimal path accepted); every cycles() entry is an elementary cycle. Non-trivial: ≥ 2 reachable targets at different distances.",
+        "bounded-exhaustive: BFS part — every digraph on 0..n, n ≤ 4 (order 5 with ≤ 1-2 sources) × 5 representations × every source subset in both orders × every target predicate (all 2^n vertex subsets); Dijkstra part — every weighted digraph of order ≤ 3 over {0,1,2,5} with all source subsets, order 4 over {1,3} (single sources quick, all subsets thorough) × every target predicate. Oracle: tree entries are shortest-path-tree arcs w.r.t. reference distances; shortest_path is None iff no target reachable, else starts at a source, ends at a target, follows arcs and has the minimum weight over all targets (any optimal path accepted); every cycles() entry is an elementary cycle. Plus the structured catalogue at orders 6..9 with every target predicate. Non-trivial: ≥ 2 reachable targets at different distances (every catalogue case counts).",
         &["cycles(): soundness only (the property does not claim completeness)", "sources distinct and in range"],
         json!({"bfs_max_order": 5, "dijkstra_alphabets": [[0,1,2,5],[1,3]]}),
     );
@@ -734,8 +736,14 @@ fn fmt_d(d: &[i128; NMAX], n: usize) -> Vec<Value> {
 }
 
 fn c07_case(g: &WG, ctx: &mut Ctx) {
+    c07_case_with(g, None, ctx);
+}
+
+/// `neg_known`: the mask of vertices on negative circuits when it is known by
+/// construction (large structured inputs), else computed by enumeration.
+pub fn c07_case_with(g: &WG, neg_known: Option<u32>, ctx: &mut Ctx) {
     let d = g.build_wi();
-    let neg = g.neg_circuit_vertices();
+    let neg = neg_known.unwrap_or_else(|| g.neg_circuit_vertices());
     let nonneg = g.nonneg();
     let du = if nonneg { Some(g.build_wu()) } else { None };
     ctx.tag(["arcs_mod4_is_0", "arcs_mod4_is_1", "arcs_mod4_is_2", "arcs_mod4_is_3"][g.arcs % 4]);
@@ -843,11 +851,12 @@ pub fn c07(tier: &str, seed: u64) -> Check {
         spaces.push(c07_space(4, &AM4));
         spaces.push(c07_space5(&AM1P2, 7));
     }
+    spaces.push(crate::props::fam::c07_c08_family("bfm", thorough));
     let report = super::report(
         "C07",
         tier,
         seed,
-        "bounded-exhaustive: every AdjacencyListWeighted<isize> digraph of order ≤ 3 over weights {-2,-1,0,1,2} and of order 4 over {-1,2} (3^12; thorough adds {-1,0,2} (4^12) and {-2,-1,1,3} (5^12)) × every source. All arc counts 0..12 occur, so every residue mod 4 of the unrolled loop at every fill level (counted per residue in tags). Oracle: a negative circuit (found by exhaustive simple-cycle enumeration) reachable from s ⇒ None; no negative circuit anywhere ⇒ Some; whenever Some(d): d exact vs |V|-1 rounds of set relaxation in i128 with isize::MAX iff unreachable; with only an unreachable negative circuit either answer is accepted; non-negative inputs must agree with DijkstraDist; distances() twice must agree. Non-trivial: the digraph has a negative circuit and ≥ 3 arcs.",
+        "bounded-exhaustive: every AdjacencyListWeighted<isize> digraph of order ≤ 3 over weights {-2,-1,0,1,2} and of order 4 over {-1,2} (3^12; thorough adds {-1,0,2} (4^12) and {-2,-1,1,3} (5^12)) × every source. All arc counts 0..12 occur, so every residue mod 4 of the unrolled loop at every fill level (counted per residue in tags). Oracle: a negative circuit (found by exhaustive simple-cycle enumeration) reachable from s ⇒ None; no negative circuit anywhere ⇒ Some; whenever Some(d): d exact vs |V|-1 rounds of set relaxation in i128 with isize::MAX iff unreachable; with only an unreachable negative circuit either answer is accepted; non-negative inputs must agree with DijkstraDist; distances() twice must agree. Plus the structured catalogue at orders 6..11 (up to 110 arcs, so the unrolled loop runs far beyond 12 arcs) with potential-reweighted negative arcs (no negative circuit by construction) and, for the strongly connected shapes, one arc lowered until a negative circuit exists (None required from every source). Non-trivial: the digraph has a negative circuit and ≥ 3 arcs (every catalogue case counts).",
         &["weights from small alphabets: no path sum approaches isize::MAX", "sources in range"],
         json!({"alphabets": {"n<=3": [-2,-1,0,1,2], "n=4": [[-1,2]]}}),
     );
@@ -859,6 +868,11 @@ fn c08_case(g: &WG, ctx: &mut Ctx) {
         ctx.skip();
         return;
     }
+    c08_case_checked(g, ctx);
+}
+
+/// For inputs known (by enumeration or by construction) to have no negative circuit.
+pub fn c08_case_checked(g: &WG, ctx: &mut Ctx) {
     let d = g.build_wi();
     ctx.exec();
     let det = || json!({"digraph": g.json()});
@@ -988,11 +1002,12 @@ pub fn c08(tier: &str, seed: u64) -> Check {
     if thorough {
         spaces.push(c08_space(4, &AM4));
     }
+    spaces.push(crate::props::fam::c07_c08_family("fw", thorough));
     let report = super::report(
         "C08",
         tier,
         seed,
-        "bounded-exhaustive: the C07 spaces filtered (by exhaustive simple-cycle enumeration on the reference) to digraphs without negative circuit; the full matrix of FloydWarshall::distances() against single-source reference distances for every source (exact, 0 on the diagonal, isize::MAX iff unreachable), row s against BellmanFordMoore from s, and on non-negative inputs against DijkstraDist from s. Non-trivial: some pair u↛v with v→u reachable (asymmetry) and some pair whose shortest walk needs ≥ 3 arcs.",
+        "bounded-exhaustive: the C07 spaces filtered (by exhaustive simple-cycle enumeration on the reference) to digraphs without negative circuit; the full matrix of FloydWarshall::distances() against single-source reference distances for every source (exact, 0 on the diagonal, isize::MAX iff unreachable), row s against BellmanFordMoore from s, and on non-negative inputs against DijkstraDist from s. Plus the structured catalogue at orders 6..11 with potential-reweighted negative arcs. Non-trivial: some pair u↛v with v→u reachable (asymmetry) and some pair whose shortest walk needs ≥ 3 arcs (every catalogue case counts).",
         &["weights from small alphabets", "inputs with a negative circuit are outside the property and skipped (not counted)"],
         json!({"alphabets": {"n<=3": [-2,-1,0,1,2], "n=4": [[-1,2]]}}),
     );
